@@ -490,3 +490,12 @@ UNITS += shared("C01", "contracts.c03", "_ActionPrintConfig.print_config_if_requ
 # re-parsing a dump goes through _apply_actions: every dumped key (also one named like a Namespace method, below a group) must meet its action again
 from contracts.apply_actions import apply_actions_unit  # noqa: E402
 UNITS.append(apply_actions_unit("C01"))
+
+# re-parsing a dump merges it over the defaults: merge_config's static walk must discard the default class's init_args for *every* key whose class the dump
+# changes (a key whose name merely starts with an earlier key's name included), or the dumped configuration is refused ("Key ... is not expected")
+from contracts.class_type import discard_unit as _discard_unit  # noqa: E402
+from contracts.discard_walk import discard_walk_unit as _discard_walk_unit  # noqa: E402
+UNITS += [_discard_walk_unit("C01"), _discard_unit("C01")]
+
+from contracts.share import carried as _carried  # noqa: E402
+UNITS += _carried("C01")
